@@ -172,3 +172,55 @@ pub proof fn lemma_contains_prefix<T>(a: Seq<T>, b: Seq<T>, x: T)
 { let k = choose|k: int| 0 <= k < a.len() && a[k] == x; assert(b.take(a.len() as int)[k] == b[k]); }
 pub proof fn lemma_prefix_add<T>(a: Seq<T>, b: Seq<T>) ensures is_prefix(a, a + b) { assert((a + b).take(a.len() as int) =~= a); }
 } // verus!
+verus! {
+use crate::models::*;
+use crate::cgt_format::*;
+// ---- ASSET EVENTS section: every dividend, accumulation, capital return, split and unsplit line, by date then ticker, with its figures
+pub open spec fn is_event(t: Transaction) -> bool {
+    t.operation is Dividend || t.operation is Accumulation || t.operation is CapReturn || t.operation is Split || t.operation is Unsplit
+}
+pub open spec fn event_refs<'a>(s: Seq<Transaction>) -> Seq<&'a Transaction> decreases s.len() {
+    if s.len() == 0 { Seq::empty() } else if is_event(s.last()) { event_refs(s.drop_last()).push(&s.last()) } else { event_refs(s.drop_last()) }
+}
+pub proof fn lemma_take_step_refs_e(s: Seq<Transaction>, i: int)
+    requires 0 <= i < s.len()
+    ensures event_refs(s.take(i + 1)) == (if is_event(s[i]) { event_refs(s.take(i)).push(&s[i]) } else { event_refs(s.take(i)) })
+{ assert(s.take(i + 1).drop_last() =~= s.take(i)); }
+pub proof fn lemma_event_refs_are_events(s: Seq<Transaction>)
+    ensures forall|k: int| 0 <= k < event_refs(s).len() ==> is_event(*#[trigger] event_refs(s)[k])
+    decreases s.len()
+{
+    if s.len() > 0 {
+        lemma_event_refs_are_events(s.drop_last());
+        let r = event_refs(s.drop_last());
+        if is_event(s.last()) {
+            assert(event_refs(s) == r.push(&s.last()));
+            assert forall|k: int| 0 <= k < event_refs(s).len() implies is_event(*#[trigger] event_refs(s)[k]) by { if k < r.len() { assert(event_refs(s)[k] == r[k]); } }
+        } else { assert(event_refs(s) == r); }
+    }
+}
+pub open spec fn event_rec(t: &Transaction) -> Rec {
+    match t.operation {
+        Operation::Dividend { total_value, tax_paid } => seq![date_str(t.date.d()), t.ticker@, cur_amount_str(total_value)],
+        Operation::Accumulation { amount, total_value, tax_paid } => seq![date_str(t.date.d()), t.ticker@, trim_str(amount.v()), cur_amount_str(total_value)],
+        Operation::CapReturn { amount, total_value, fees } => seq![date_str(t.date.d()), t.ticker@, trim_str(amount.v()), cur_amount_str(total_value)],
+        Operation::Split { ratio } => seq![date_str(t.date.d()), t.ticker@, trim_str(ratio.v())],
+        Operation::Unsplit { ratio } => seq![date_str(t.date.d()), t.ticker@, trim_str(ratio.v())],
+        _ => Seq::empty(),
+    }
+}
+pub open spec fn ev_block_ok(blk: Seq<Rec>, ts: Seq<&Transaction>) -> bool {
+    blk.len() == ts.len() && forall|j: int| 0 <= j < blk.len() ==> #[trigger] blk[j] =~= event_rec(ts[j])
+}
+pub proof fn lemma_ev_push(blk: Seq<Rec>, ts: Seq<&Transaction>, rec: Rec, t: &Transaction)
+    requires ev_block_ok(blk, ts), rec =~= event_rec(t) ensures ev_block_ok(blk.push(rec), ts.push(t))
+{
+    assert forall|j: int| 0 <= j < blk.push(rec).len() implies #[trigger] blk.push(rec)[j] =~= event_rec(ts.push(t)[j]) by {
+        if j < blk.len() { assert(blk.push(rec)[j] == blk[j]); assert(ts.push(t)[j] == ts[j]); }
+    }
+}
+pub open spec fn plain_events_ok(rs: Seq<Rec>, report: TaxReport) -> bool {
+    exists|pre: Seq<Rec>, blk: Seq<Rec>, post: Seq<Rec>, ts: Seq<&Transaction>|
+        #![trigger sect(rs, pre, blk, post), ev_block_ok(blk, ts)] sect(rs, pre, blk, post) && ev_block_ok(blk, ts) && sorted_date_ticker(ts) && perm_facts(event_refs(report.transactions@), ts)
+}
+} // verus!
